@@ -1,4 +1,5 @@
 """C16 — reported locations are consistent with the input and name the right node (DESIGN §4 C16)."""
+import re
 from ..mir import MissingAnchor, sym_contains, norm
 from ..rules import render, aggregates, last_seg, bool_switches, must_pass, switch_edges
 
@@ -44,6 +45,44 @@ def check_ctor(ctx, fx, config, f, mark_hint):
     return None
 
 
+def _walk(sym):
+    if isinstance(sym, tuple):
+        yield sym
+        for x in sym:
+            if isinstance(x, (tuple, list)):
+                for y in (x if isinstance(x, list) else [x]):
+                    yield from _walk(y)
+
+
+def loc_prov(fx, sym_or_render, depth=0):
+    """provenance classes of a Location-valued symbolic value: 'ref' (Events::reference_location), 'def' (location of the
+    peeked node).  A crate-local helper that returns a tuple is followed through its return aggregate, so extracting the
+    `peek … reference_location` sequence into a function keeps the facts the rules are about."""
+    r = sym_or_render if isinstance(sym_or_render, str) else render(sym_or_render)
+    out = set()
+    if "reference_location(" in r:
+        out.add("ref")
+    if "peek(" in r:
+        out.add("def")
+    if out or depth > 2:
+        return out
+    mk = re.search(r"\.(\d)$", r)
+    if mk and not isinstance(sym_or_render, str):
+        k = int(mk.group(1))
+        for x in _walk(sym_or_render):
+            if len(x) > 1 and x[0] == "call" and x[1] in fx.fns and fx.fns[x[1]].file.startswith("src/") and fx.fns[x[1]].kind in ("fn", "assoc"):
+                h = fx.fns[x[1]]
+                for b, i, adt, var, fl, ops, s_ in aggregates(h):
+                    with h.deep():
+                        whole = h.sym_rvalue(s_["rv"])
+                    for y in _walk(whole):
+                        if len(y) > 4 and y[0] == "aggr" and str(y[1]).startswith("tuple") and len(y[4]) > k:
+                            sub = loc_prov(fx, y[4][k], depth + 1)
+                            if sub:
+                                return sub
+    return out
+
+
 def run(ctx):
     for config in ctx.configs:
         fx = ctx.facts(config)
@@ -71,15 +110,19 @@ def run(ctx):
         vis = [b for b, t in sp.calls() if t["f"].get("name") == "visit_newtype_struct"]
         peeks = [b for b, t in sp.calls() if last_seg(fx.callee_decl(t)) == "peek"]
         refs = [b for b, t in sp.calls() if last_seg(fx.callee_decl(t)) == "reference_location"]
-        ctx.check(len(vis) == 1 and peeks and refs and all(sp.dominates(p, vis[0]) for p in peeks[:1]) and all(sp.dominates(r, vis[0]) for r in refs), "DOM", "C16:DOM:spanned:capture-before-visit",
+        sp_helpers = [hb for hb, ht in sp.calls() if fx.callee(ht) in fx.fns and fx.fns[fx.callee(ht)].file.startswith("src/") and {"peek", "reference_location"} <= {last_seg(fx.callee_decl(t2)) for _b2, t2 in fx.fns[fx.callee(ht)].calls()}]
+        direct = bool(peeks) and bool(refs) and len(vis) == 1 and all(sp.dominates(p, vis[0]) for p in peeks[:1]) and all(sp.dominates(r, vis[0]) for r in refs)
+        via_helper = len(vis) == 1 and any(sp.dominates(hb, vis[0]) for hb in sp_helpers)
+        ctx.check(direct or via_helper, "DOM", "C16:DOM:spanned:capture-before-visit",
                   "definition site (peek) and use site (reference_location) are captured before the node is handed to the visitor", "Spanned no longer captures both locations before consuming the node", config, ctx.where(sp))
         for bb, i, adt, var, fl, ops, s_ in aggregates(sp):
             if adt.endswith("SpannedDeser"):
                 with sp.deep():
-                    r = render(sp.sym_operand(s_["rv"]["ops"][fl.index("referenced")]))
-                    d = render(sp.sym_operand(s_["rv"]["ops"][fl.index("defined")]))
-                ctx.check("reference_location(" in r, "DOM", "C16:DOM:spanned:referenced", "`referenced` is the event source's use-site location", "`referenced` is `%s`" % r[:120], config, ctx.where(sp, bb))
-                ctx.check("location(" in d and "peek(" in d or "last_location(" in d, "DOM", "C16:DOM:spanned:defined", "`defined` is the peeked node's own location", "`defined` is `%s`" % d[:120], config, ctx.where(sp, bb))
+                    rs = sp.sym_operand(s_["rv"]["ops"][fl.index("referenced")])
+                    ds = sp.sym_operand(s_["rv"]["ops"][fl.index("defined")])
+                r, d = render(rs), render(ds)
+                ctx.check(loc_prov(fx, rs) == {"ref"}, "DOM", "C16:DOM:spanned:referenced", "`referenced` is the event source's use-site location", "`referenced` is `%s`" % r[:120], config, ctx.where(sp, bb))
+                ctx.check("def" in loc_prov(fx, ds) and loc_prov(fx, ds) != {"ref"}, "DOM", "C16:DOM:spanned:defined", "`defined` is the peeked node's own location", "`defined` is `%s`" % d[:120], config, ctx.where(sp, bb))
         # ---- SIBLING: element / value / payload sites
         n = 0
         for f in sorted(fx.fns.values(), key=lambda f: f.npath):
@@ -119,9 +162,18 @@ def run(ctx):
                     for gb, gt in g.calls():
                         if fx.callee(gt) == ATTACH:
                             okm = True
-                            a1 = render(g.sym_operand(gt["args"][1]))
-                            a2 = render(g.sym_operand(gt["args"][2]))
-                            order_ok = a1.endswith("reference_location") and a2.endswith("defined_location")
+                            provs = []
+                            for ai in (1, 2):
+                                a = g.sym_operand(gt["args"][ai])
+                                up = [x for x in _walk(a) if len(x) > 2 and x[0] == "upvar"]
+                                if up and isinstance(up[0][2], int) and up[0][2] < len(cl[2]):
+                                    provs.append(loc_prov(fx, cl[2][up[0][2]]))
+                                else:
+                                    provs.append(loc_prov(fx, a))
+                            # use-site: the event source's answer, or (buffered value) the reference location stored with the pending entry
+                            a1r = render(cl[2][[x for x in _walk(g.sym_operand(gt["args"][1])) if len(x) > 2 and x[0] == "upvar"][0][2]]) if [x for x in _walk(g.sym_operand(gt["args"][1])) if len(x) > 2 and x[0] == "upvar"] else ""
+                            stored_ref = provs[0] == set() and "pending_value" in a1r
+                            order_ok = (provs[0] == {"ref"} or stored_ref) and "def" in provs[1] and "ref" not in provs[1].difference({"def"})
                     # the captured upvars were defined before the deserialize call
                     ups = [render(u) for u in cl[2]]
                     captured_before = True
@@ -136,7 +188,7 @@ def run(ctx):
                     with f.deep():
                         dsym = f.sym_local(li)
                     r = render(dsym)
-                    ctx.check("peek(" in r, "DOM", "C16:DOM:defined-from-peeked-node:%s" % f.name, "defined_location is read from the peeked event",
+                    ctx.check("def" in loc_prov(fx, dsym), "DOM", "C16:DOM:defined-from-peeked-node:%s" % f.name, "defined_location is read from the peeked event",
                               "%s takes the definition site from `%s` rather than from the peeked event: for nodes served from a replay buffer (merge-derived values) it is the preceding key's position" % (f.name, r[:90]), config, ctx.where(f))
             # both locations are captured before the nested deserialization consumes the node
             for b, t in seeds:
@@ -144,7 +196,15 @@ def run(ctx):
                 peeks = [pb for pb, pt in f.calls() if last_seg(fx.callee_decl(pt)) == "peek"]
                 pend = any(render(f.sym_place(s_["p"])) and False for _b, _i, s_ in f.stmts())  # placeholder
                 buffered = any(last_seg(fx.callee(ft)) == "with_reference" and f.dominates(fb, b) for fb, ft in f.calls())
-                okc = (any(f.dominates(r, b) for r in refs) or buffered) and any(f.dominates(p, b) for p in peeks)
+                helpers = []
+                for hb, ht in f.calls():
+                    c = fx.callee(ht)
+                    if c in fx.fns and fx.fns[c].file.startswith("src/") and f.dominates(hb, b) and hb != b:
+                        h = fx.fns[c]
+                        hr = {last_seg(fx.callee_decl(t2)) for _b2, t2 in h.calls()}
+                        if {"peek", "reference_location"} <= hr:
+                            helpers.append(hb)
+                okc = ((any(f.dominates(r, b) for r in refs) or buffered) and any(f.dominates(p, b) for p in peeks)) or bool(helpers)
                 ctx.check(okc, "DOM", "C16:DOM:capture-before-consume:%s" % f.name, "use-site and definition-site are captured before the node is consumed",
                           "the locations are read after (or not before) the nested deserialization consumed the node: they describe the *next* node", config, ctx.where(f, b))
         ctx.floor("SIBLING.dual-location-sites", n, 4, config)
@@ -279,6 +339,8 @@ def rule_defined_from_peek(ctx, fx, config, prop="C18"):
                 n += 1
                 with f.deep():
                     r = render(f.sym_local(li))
-                ctx.check("peek(" in r, "DOM", "%s:DOM:defined-from-peeked-node:%s" % (prop, f.name), "defined_location is read from the peeked event",
+                with f.deep():
+                    dsym2 = f.sym_local(li)
+                ctx.check("def" in loc_prov(fx, dsym2), "DOM", "%s:DOM:defined-from-peeked-node:%s" % (prop, f.name), "defined_location is read from the peeked event",
                           "%s takes the definition site from `%s` rather than from the peeked event" % (f.name, r[:90]), config, ctx.where(f))
     ctx.floor("DOM.defined-location-sites", n, 1, config)
